@@ -140,19 +140,22 @@ theorem encodeSecs_congr {w w' : World} (d : Doc) (ss : List (FrameId × Comp))
     rw [encodeSec_congr d i s hh hf hr, ih (i + 1)]
 
 theorem encodeWithContext_congr (T : Table) {w w' : World} (d : Doc)
+    (hs : w.seed = w'.seed)
     (hc : w.ctx = w'.ctx) (hh : w.heap = w'.heap) (hf : w.frames = w'.frames)
     (hr : ∀ o, aget (strategyName o) w.registry = aget (strategyName o) w'.registry) :
     encodeWithContext T w d = encodeWithContext T w' d := by
   unfold encodeWithContext
-  rw [encodeSecs_congr d d.secs hh hf hr 0, hh, hc]
+  rw [encodeSecs_congr d d.secs hh hf hr 0, hh, hc, hs]
 
-/-- the outcome of `rtf_encode()` is a function of the document, the objects and the frames only -/
+/-- the outcome of `rtf_encode()` is a function of the document, the objects and the frames only (within one
+process: one hash seed; across seeds see `encodeDoc_outcome_inj`) -/
 theorem encodeDoc_outcome (T : Table) {w w' : World} (d : Doc)
-    (hh : w.heap = w'.heap) (hf : w.frames = w'.frames) :
+    (hs : w.seed = w'.seed) (hh : w.heap = w'.heap) (hf : w.frames = w'.frames) :
     (encodeDoc T w d).2 = (encodeDoc T w' d).2 := by
   unfold encodeDoc
   apply encodeWithContext_congr
-  · simp [hh]
+  · exact hs
+  · simp [hh, hs]
   · exact hh
   · exact hf
   · intro o; exact registerAll_lookup _ _ o
@@ -746,7 +749,7 @@ theorem encodeSecs_local {w w' : World} (d : Doc)
     rw [encodeSec_local d i s hr h0.1 h0.2 hh, ih (i + 1) (fun s' hs' => hs s' (List.mem_cons_of_mem _ hs'))]
 
 theorem encodeWithContext_local (T : Table) {w w' : World} (d : Doc)
-    (hctx : w.ctx = w'.ctx)
+    (hseed : w.seed = w'.seed) (hctx : w.ctx = w'.ctx)
     (hr : ∀ o, aget (strategyName o) w.registry = aget (strategyName o) w'.registry)
     (hc : ∀ comp ∈ allComps d, comp.get w.heap = comp.get w'.heap)
     (hf : ∀ s ∈ d.secs, aget s.1 w.frames = aget s.1 w'.frames) :
@@ -762,21 +765,24 @@ theorem encodeWithContext_local (T : Table) {w w' : World} (d : Doc)
     simp only [allComps, List.mem_append]
     exact Or.inr hcm
   unfold encodeWithContext collect
-  rw [encodeSecs_local d hr hh d.secs 0 hsecs, docObjs_congr d hc, hctx]
+  rw [encodeSecs_local d hr hh d.secs 0 hsecs, docObjs_congr d hc, hctx, hseed]
 
 theorem encodeDoc_local (T : Table) (w w' : World) (d : Doc)
+    (hseed : w.seed = w'.seed)
     (hc : ∀ comp ∈ allComps d, comp.get w.heap = comp.get w'.heap)
     (hf : ∀ s ∈ d.secs, aget s.1 w.frames = aget s.1 w'.frames) :
     (encodeDoc T w d).2 = (encodeDoc T w' d).2 := by
   unfold encodeDoc
   apply encodeWithContext_local
+  · exact hseed
   · simp only [collect]
-    rw [docObjs_congr d hc]
+    rw [docObjs_congr d hc, hseed]
   · intro o; exact registerAll_lookup _ _ o
   · exact hc
   · exact hf
 
 theorem encodeCtor_local (T : Table) (w w' : World) (c : Ctor)
+    (hseed : w.seed = w'.seed)
     (hobj : ∀ i ∈ c.secs.map (·.2) ++ c.others ++ headerIds c.headers, aget i w.heap = aget i w'.heap)
     (hfr : ∀ i ∈ c.secs.map (·.1), aget i w.frames = aget i w'.frames) :
     (encodeCtor T w c).2 = (encodeCtor T w' c).2 := by
@@ -786,6 +792,7 @@ theorem encodeCtor_local (T : Table) (w w' : World) (c : Ctor)
   · rename_i d hd
     obtain ⟨h1, h2⟩ := construct_refs hd
     apply encodeDoc_local
+    · exact hseed
     · intro comp hcomp
       apply get_congr
       intro j hj
@@ -793,5 +800,74 @@ theorem encodeCtor_local (T : Table) (w w' : World) (c : Ctor)
     · intro s hs
       exact hfr s.1 (h2 s hs)
   · rfl
+
+/-! ## the hash seed: every enumeration of a set is a permutation of its members -/
+
+theorem enumSet_perm (s : Nat) (xs : List Str) : (enumSet s xs).Perm (dedup xs) := by
+  unfold enumSet
+  have h := (sortByIndex_perm ((dedup xs).map (fun c => (c, strHash s c)))).map (·.1)
+  have e : ((dedup xs).map (fun c => (c, strHash s c))).map (·.1) = dedup xs := by
+    rw [List.map_map]
+    exact (List.map_congr_left (fun _ _ => rfl)).trans (List.map_id _)
+  rw [e] at h
+  exact h
+
+theorem enumSet_perm_seeds (s s' : Nat) (xs : List Str) : (enumSet s xs).Perm (enumSet s' xs) :=
+  (enumSet_perm s xs).trans (enumSet_perm s' xs).symm
+
+theorem collect_perm (s s' : Nat) (h : Heap) (d : Doc) : (collect s h d).Perm (collect s' h d) :=
+  enumSet_perm_seeds s s' _
+
+theorem getColorIndex_perm (T : Table) (used used' : List Color) (c : Color)
+    (hinj : ∀ a b n, master T a = some n → master T b = some n → a = b) (hperm : used.Perm used') :
+    getColorIndex T (some used) c = getColorIndex T (some used') c := by
+  unfold getColorIndex
+  rw [rtfColorIndex_perm T used used' c hinj hperm]
+
+/-- Where the master index is injective, `_encode_with_context` gives the same outcome under two contexts that
+enumerate the same colours in different orders, in processes with different hash seeds. -/
+theorem encodeWithContext_perm (T : Table)
+    (hinj : ∀ a b n, master T a = some n → master T b = some n → a = b) {w w' : World} (d : Doc)
+    (u u' : List Color) (hcu : w.ctx = some u) (hcu' : w'.ctx = some u') (hp : u.Perm u')
+    (hh : w.heap = w'.heap) (hf : w.frames = w'.frames)
+    (hr : ∀ o, aget (strategyName o) w.registry = aget (strategyName o) w'.registry) :
+    encodeWithContext T w d = encodeWithContext T w' d := by
+  unfold encodeWithContext
+  rw [encodeSecs_congr d d.secs hh hf hr 0, hh, hcu, hcu',
+    colorTable_perm T _ _ hinj (collect_perm w.seed w'.seed w'.heap d)]
+  have hi : ((docObjs w'.heap d).flatMap (·.used)).map (fun c => (c, getColorIndex T (some u) c))
+      = ((docObjs w'.heap d).flatMap (·.used)).map (fun c => (c, getColorIndex T (some u') c)) := by
+    apply List.map_congr_left
+    intro c _
+    rw [getColorIndex_perm T u u' c hinj hp]
+  rw [hi]
+
+/-- **The outcome of `rtf_encode()` does not depend on the process's hash seed** (nor on anything else but the
+document, the objects and the frames), provided the master colour index is injective (it is: `Props.C14`). -/
+theorem encodeDoc_outcome_inj (T : Table)
+    (hinj : ∀ a b n, master T a = some n → master T b = some n → a = b) {w w' : World} (d : Doc)
+    (hh : w.heap = w'.heap) (hf : w.frames = w'.frames) :
+    (encodeDoc T w d).2 = (encodeDoc T w' d).2 := by
+  unfold encodeDoc
+  apply encodeWithContext_perm T hinj d (collect w.seed w.heap d) (collect w'.seed w'.heap d) rfl rfl
+  · rw [hh]; exact collect_perm _ _ _ _
+  · exact hh
+  · exact hf
+  · intro o; exact registerAll_lookup _ _ o
+
+theorem encodeCtor_local_inj (T : Table)
+    (hinj : ∀ a b n, master T a = some n → master T b = some n → a = b) (w w' : World) (c : Ctor)
+    (hobj : ∀ i ∈ c.secs.map (·.2) ++ c.others ++ headerIds c.headers, aget i w.heap = aget i w'.heap)
+    (hfr : ∀ i ∈ c.secs.map (·.1), aget i w.frames = aget i w'.frames) :
+    (encodeCtor T w c).2 = (encodeCtor T w' c).2 := by
+  have h1 := encodeCtor_local T w { w' with seed := w.seed } c rfl hobj hfr
+  rw [h1]
+  unfold encodeCtor
+  show (match construct w'.heap w'.frames c with
+    | .ok d => encodeDoc T { w' with seed := w.seed } d
+    | .error e => ({ w' with seed := w.seed }, .error e)).2 = _
+  cases construct w'.heap w'.frames c with
+  | ok d => exact encodeDoc_outcome_inj T hinj d rfl rfl
+  | error e => rfl
 
 end Proofs.World
